@@ -420,15 +420,41 @@ def run_numpy(cfg, path, excs, seed, batched):
                 return "submit_instructions returned id %r for a row where %r is specified (2^64-1 = no order)" % (i, want)
         return None
 
+    def flush_run(run):
+        if not run:
+            return None
+        if run[0][0] == 1:
+            ids = e.submit_limit_orders((np.array([r[1] for r in run], dtype=bool), np.array([r[2] for r in run], dtype=u32),
+                                         np.array([r[3] for r in run], dtype=u32), np.array([r[4] for r in run], dtype=u32))).tolist()
+            if ids != [r[6] for r in run]:
+                return "submit_limit_orders returned %r but the specification says %r" % (ids, [r[6] for r in run])
+        else:
+            e.submit_cancellations(np.array([r[5] for r in run], dtype=u64))
+        return None
+
     rows = []
+    run = []
     for k, l in enumerate(path):
         op = l["op"]
+        if not (op == "submit" and excs[k] == "none") and run:
+            p = flush_run(run)
+            run = []
+            if p:
+                return None, "step %d: %s" % (k, p)
         if op == "submit" and excs[k] == "none":
             if l["k"] == "new":
                 row = (1, l["side"] == "B", l["vol"], l["tr"], opt(l["price"]), 0, l["ret"])
             else:
                 row = (2, False, 0, 0, 0, l["id"], None)
-            if batched:
+            if batched == 2:
+                # consecutive submissions of one kind go into ONE submit_limit_orders / submit_cancellations call
+                if run and (run[0][0] != row[0]):
+                    p = flush_run(run)
+                    run = []
+                    if p:
+                        return None, "step %d: %s" % (k, p)
+                run.append(row)
+            elif batched:
                 rows.append(row)
             elif l["k"] == "new":
                 ids = e.submit_limit_orders((np.array([row[1]], dtype=bool), np.array([row[2]], dtype=u32),
@@ -461,7 +487,7 @@ def run_numpy(cfg, path, excs, seed, batched):
                 e.disable_trading()
             else:
                 raise RuntimeError("harness: StepEnvNumpy has no call for label %r" % (l,))
-    p = flush(rows)
+    p = flush(rows) or flush_run(run)
     if p:
         return None, "final flush: %s" % p
     return numpy_view(e, len(path) % 2), None
@@ -492,7 +518,7 @@ def replay_env_line(cfg, idx, v, S):
         S["ops"] += len(path)
         try:
             if numpy_mode:
-                got, prob = run_numpy(cfg, path, excs, seed, batched=bool((idx + k) % 2))
+                got, prob = run_numpy(cfg, path, excs, seed, batched=(idx + k) % 3)
             else:
                 got, prob = run_env(cfg, path, excs, seed)
         except BaseException as e:
@@ -513,6 +539,11 @@ def replay_env_line(cfg, idx, v, S):
                            first_diff(w, got, "py")))
             else:
                 seen.update(members)
+                if k == 0 and nsteps and numpy_mode:
+                    # deterministic in the seed: the same seed and the same calls again give the same values
+                    again, p2 = run_numpy(cfg, path, excs, seed, batched=(idx + k) % 3)
+                    if p2 or first_diff(got, again, ""):
+                        prob = "seed %d run twice gives different values: %s" % (seed, p2 or first_diff(got, again, "run1 vs run2"))
                 if k == 0 and nsteps and not numpy_mode:
                     # deterministic in the seed: the same seed again gives the same values
                     again, p2 = run_env(cfg, path, excs, seed)
